@@ -275,7 +275,8 @@ def get_label(tree, **params):
     if 'gf_separator' in params:
         gf_separator = str(params['gf_separator'])
     gf_string = ""
-    if 'gf' in params and not tree.data['edge'].startswith("-") \
+    if 'gf' in params and tree.data['edge'] is not None \
+       and not tree.data['edge'].startswith("-") \
        and (has_children(tree)
             or 'gf_terminals' in params):
         gf_string = "%s%s" % (gf_separator, tree.data['edge'])
